@@ -72,6 +72,8 @@ class V:
         self.unit.covers.setdefault(label, []).append(str(r))
         if r == z3.unsat:
             raise PathEnd("vacuous precondition")
+        # full check (with the quantified facts) is discharged with the other VCs: `False` must NOT be provable
+        self.st.check(f"{self.unit.qual}/cover:{label}", False, kind="cover", case=list(self.case))
 
     # -- running the real function
     def call(self, qual_or_fn, args=(), kwargs=None, target=True):
